@@ -200,7 +200,17 @@ class Puppet:
         stacks, sidx = [], {}
         self.X = []
         self.index = {}
+        cfas, prev = [], None
         for e in self.ents:
+            # canonical frame address of the activation = rsp at its first instruction + 8
+            if prev is None:
+                cfas = [e["rsp"] + 8]
+            elif e["depth"] > prev["depth"]:
+                cfas.append(e["rsp"] + 8)
+            elif e["depth"] < prev["depth"] and len(cfas) > 1:
+                cfas.pop()
+            prev = e
+            co = cfas[-1] - e["rsp"]
             pc = e["pc"]
             pl = self.lines.place(pc)
             f = self.fn_of(pc)
@@ -210,7 +220,7 @@ class Puppet:
                 sidx[sk] = len(stacks)
             rec = {"pc": pc, "d": e["depth"], "ln": pl[1] if pl and pl[0].endswith(self.src.name) else 0,
                    "st": self.lines.is_stmt_start(pc), "pe": pc >= pe.get(f, 0), "fn": f,
-                   "sk": sidx[sk], "tk": e["tick"], "ext": bool(e.get("ext"))}
+                   "sk": sidx[sk], "tk": e["tick"], "ext": bool(e.get("ext")), "co": co}
             self.X.append(rec)
             self.index.setdefault((pc, e["tick"]), len(self.X))      # 1-based
         self.stacks = stacks
@@ -243,9 +253,9 @@ class Puppet:
         d.mkdir(parents=True, exist_ok=True)
 
         def rec(x):
-            return ("[pc |-> %d, d |-> %d, ln |-> %d, st |-> %s, pe |-> %s, fn |-> %d, sk |-> %d, tk |-> %d, ext |-> %s]"
+            return ("[pc |-> %d, d |-> %d, ln |-> %d, st |-> %s, pe |-> %s, fn |-> %d, sk |-> %d, tk |-> %d, ext |-> %s, co |-> %d]"
                     % (x["pc"], x["d"], x["ln"], "TRUE" if x["st"] else "FALSE", "TRUE" if x["pe"] else "FALSE",
-                       x["fn"], x["sk"], x["tk"], "TRUE" if x["ext"] else "FALSE"))
+                       x["fn"], x["sk"], x["tk"], "TRUE" if x["ext"] else "FALSE", x["co"]))
         xs = ",\n  ".join(rec(x) for x in self.X)
         st = ", ".join("<<" + ", ".join(str(a) for a in s) + ">>" for s in self.stacks)
         entry = nm_symbols(self.exe).get("_start", (0, 0))[0]
@@ -305,7 +315,7 @@ def to_events(p, obs, attach=False):
     prev_nums = {}
     base = {"ok": True, "err": "", "addrs": [], "idx": 0, "said": "none", "rpc": -1, "rline": -1, "code": -1,
             "patched": [-1], "bt": [-1], "tick": -1, "panic": False, "nums_kept": True, "gone": True,
-            "alive": True, "running": True, "dr_armed": False}
+            "alive": True, "running": True, "dr_armed": False, "cfa_off": -1, "fi_ret": -1}
     for o in obs:
         if o.get("ev") == "released":
             dr = o.get("dr7") or {}
@@ -381,6 +391,10 @@ def to_events(p, obs, attach=False):
                     e["rline"] = pl["line"] if pl else -1
                 elif after.get("ecx_pc") is not None:
                     e["rpc"] = after["ecx_pc"]
+                fi = after.get("frame_info")
+                if fi and after.get("rsp") is not None and after.get("frame_num", 0) == 0:
+                    e["cfa_off"] = fi["cfa"] - after["rsp"]
+                    e["fi_ret"] = fi["ret"] if fi.get("ret") is not None else -1
                 if "bt" in after:
                     e["bt"] = [f["ip"] for f in after["bt"]]
                 elif "bt_err" in after or "bt_panic" in after:
